@@ -27,6 +27,8 @@ class H(Hooks):
                 return ("class",)
         if base == ("class",) and name == "opname":
             return ("sym", "OPNAME")
+        if base == ("class",) and name == "opcode":
+            return ("enum", "Op::" + getattr(self, "opcode", "Constant"), [])
         if base == ("grammar",) and name == "opname":
             return ("sym", "EXTNAME")
         return NotImplemented
@@ -102,3 +104,88 @@ def ext_inst(ctx, kinds, have, resolved):
     except SPanic as x:
         return ("panic", str(x)), ops
     return r, ops
+
+
+class LB(Hooks):
+    def cast(self, v, ty, e):
+        if v == ("sym", "value"):
+            return ("as", v, ty)
+        return NotImplemented
+
+    def call(self, p, args, e):
+        segs = p.split("::")
+        if segs[-1] == "from_bits" and len(args) == 1:
+            return ("from_bits", segs[-2], args[0])
+        return NotImplemented
+
+
+def literal_bit(ctx, ty, literal_type):
+    """text pieces DisassembleLiteralBit for <ty> produces for the given Type value"""
+    f = ctx.rspirv.fn(DIS, "disas_literal_bit", ty, "DisassembleLiteralBit")
+    ps = [p[0] for p in f["sig"]["params"]]
+    r = SymEval(LB(), "disas_literal_bit").run(f, {ps[0]: ("sym", "value"), ps[1]: literal_type})
+    return flatten_fmt(r)
+
+
+class GH(Hooks):
+    def __init__(self, word):
+        self.word = word
+
+    def path(self, p):
+        return ("header",) if p == "self" else NotImplemented
+
+    def field(self, base, name, e):
+        if base == ("header",) and name == "generator":
+            return self.word
+        if base == ("header",) and name == "bound":
+            return ("sym", "BOUND")
+        return NotImplemented
+
+    def mcall(self, recv, m, args, e, ev):
+        if recv == ("header",) and m == "version":
+            return ("tuple", [("sym", "MAJOR"), ("sym", "MINOR")])
+        if recv == ("header",) and m == "generator":
+            return ("tuple", [("sym", "VENDOR"), ("sym", "TOOLVERSION")])
+        return NotImplemented
+
+
+def generator(ctx, word):
+    f = ctx.rspirv.fn("rspirv::dr::constructs", "generator", "ModuleHeader", False)
+    return SymEval(GH(word), "ModuleHeader::generator").run(f, {})
+
+
+def header_text(ctx):
+    f = ctx.rspirv.fn(DIS, "disassemble", "ModuleHeader", "Disassemble")
+    return flatten_fmt(SymEval(GH(0), "ModuleHeader::disassemble").run(f, {}))
+
+
+class CH(H):
+    def __init__(self, rtype, resolved, operand):
+        H.__init__(self, rid=True, rtype=rtype, operands=[operand] if operand is not None else [])
+        self.resolved = resolved
+
+    def mcall(self, recv, m, args, e, ev):
+        if recv == ("typetracker",) and m == "resolve" and len(args) == 1:
+            return ("some", ("sym", "TYPE")) if self.resolved else NONE
+        return H.mcall(self, recv, m, args, e, ev)
+
+    def call(self, p, args, e):
+        if p.split("::")[-1] in ("disas_literal_bit_operand", "disas_literal_bit") and len(args) == 2:
+            return ("litbit", args[0], args[1])
+        if p.split("::")[-1] == "disas_instruction" and len(args) == 3:
+            clo = args[2]
+            body = None
+            if isinstance(clo, tuple) and clo[0] == "closure":
+                body = SymEval(self, "closure").apply(clo, [("list", self.operands)])
+            return ("instr", args[0], args[1], body)
+        return H.call(self, p, args, e)
+
+
+def constant(ctx, rtype, resolved, operand):
+    f = ctx.rspirv.fn(DIS, "disas_constant")
+    ps = [p[0] for p in f["sig"]["params"]]
+    h = CH(rtype, resolved, operand)
+    try:
+        return SymEval(h, "disas_constant").run(f, {ps[0]: ("inst",), ps[1]: ("typetracker",)})
+    except SPanic as x:
+        return ("panic", str(x))
